@@ -40,6 +40,9 @@ var modPath = "github.com/openacid/low"
 
 var noLoops = false
 
+// -hashall: an internal error of the translator on some function of the module makes that function unsupported
+var lenient = false
+
 // ------------------------------------------------------------------------------------------ configuration
 
 // packages loaded (module-internal dependencies and github.com/openacid/must are followed)
@@ -432,6 +435,8 @@ type result struct {
 	Mutates bool   `json:"mutates"`
 	Fuel    bool   `json:"fuel"` // the definition takes the loop fuel as its first argument
 	Calls   []string `json:"calls,omitempty"`
+	File    string   `json:"file,omitempty"`    // source file relative to the module root
+	SSAHash string   `json:"ssa_hash,omitempty"` // hash of the SSA form (change detection for functions without a definition)
 }
 
 type freshRec struct {
@@ -1311,11 +1316,21 @@ func fixRets(n node, mutates bool) {
 // drop the state parameter of continuations when the function never writes the state (cosmetic, keeps the
 // non-mutating methods free of an unused binder): not done - the binder is harmless.
 
+var ssaHdrRe = regexp.MustCompile(`(?m)^# .*\n|\s#[A-Za-z_]\w*`) // header lines (path, position) and the source names of Phi nodes
+
 func translate(fn *ssa.Function, name string, done map[string]*result, byName map[string]*ssa.Function) (res *result) {
 	res = &result{Name: name, Coq: coqIdent(name)}
 	if fn == nil {
 		res.Status, res.Reason = "unsupported", "no such function in this tree"
 		return
+	}
+	{
+		var sb strings.Builder
+		fn.WriteTo(&sb)
+		res.SSAHash = fmt.Sprintf("%x", sha256.Sum256([]byte(ssaHdrRe.ReplaceAllString(sb.String(), ""))))[:16]
+		if f := fn.Prog.Fset.Position(fn.Pos()).Filename; f != "" && fn.Pkg != nil {
+			res.File = strings.TrimPrefix(fn.Pkg.Pkg.Path(), modPath+"/") + "/" + f[strings.LastIndex(f, "/")+1:]
+		}
 	}
 	res.Pos = strings.TrimPrefix(fn.Prog.Fset.Position(fn.Pos()).String(), "")
 	res.Sig = fn.Signature.String()
@@ -1323,7 +1338,10 @@ func translate(fn *ssa.Function, name string, done map[string]*result, byName ma
 		if r := recover(); r != nil {
 			u, ok := r.(unsupported)
 			if !ok {
-				panic(r)
+				if !lenient {
+					panic(r)
+				}
+				u = unsupported{fmt.Sprintf("translator error: %v", r)}
 			}
 			res.Status, res.Reason, res.Def = "unsupported", u.why, ""
 		}
@@ -1426,6 +1444,9 @@ var wsRe = regexp.MustCompile(`\s+`)
 func hashOf(r *result) string {
 	s := r.Def
 	if r.Status != "translated" {
+		if r.SSAHash != "" {
+			return r.SSAHash // no definition: the SSA form stands in (any change of it counts)
+		}
 		s = "unsupported"
 	}
 	s = cmtRe.ReplaceAllString(s, "")
@@ -1458,6 +1479,7 @@ func run(args []string) int {
 	pk := flag.String("pkgs", "", "packages (tests)")
 	tg := flag.String("targets", "", "targets (tests)")
 	flag.BoolVar(&noLoops, "noloops", false, "refuse every function whose control flow graph has a back edge")
+	hashall := flag.Bool("hashall", false, "change detection (lib/trans_changed.py): every function of every package of the module; the hash of the generated definition where one exists, otherwise the hash of the SSA form")
 	all := flag.Bool("all", false, "try every function of the loaded packages (exploration: which functions are translatable?)")
 	if err := flag.Parse(args); err != nil {
 		return 2
@@ -1481,6 +1503,11 @@ func run(args []string) int {
 	var pats []string
 	for _, p := range pkgNames {
 		pats = append(pats, modPath+"/"+p)
+	}
+	if *hashall {
+		pats = []string{modPath + "/..."}
+		*all = true
+		lenient = true
 	}
 	pkgs, err := packages.Load(cfg, pats...)
 	if err != nil {
@@ -1540,7 +1567,8 @@ func run(args []string) int {
 	if *all {
 		var ns []string
 		for n, fn := range byName {
-			if fn.Pkg != nil && strings.HasPrefix(fn.Pkg.Pkg.Path(), modPath+"/") && fn.Synthetic == "" && !strings.Contains(n, "$") && !strings.HasSuffix(n, ".init") {
+			if fn.Pkg != nil && strings.HasPrefix(fn.Pkg.Pkg.Path(), modPath+"/") && fn.Synthetic == "" && !strings.HasSuffix(n, ".init") &&
+				(*hashall || !strings.Contains(n, "$")) {
 				ns = append(ns, n)
 			}
 		}
